@@ -35,7 +35,8 @@ def rand_sm(rng, negative=False):
         if which in ("stop", "both"):
             props[3][1] = "2.000=-0.500"
     for key, vals in (("DELAYS", ["", "3.000=0.300"]), ("WARPS", ["", "5.000=1.000"]), ("ANIMATIONS", ["a"]), ("BGCHANGES", ["b"]), ("ORIGIN", ["x"]),
-                      ("LABELS", ["0=y"]), ("ATTACKS", ["a:b"]), ("DISPLAYBPM", ["1:2", "*"]), ("ARTIST", ["猫"]), ("EXTRA KEY", ["v"])):
+                      ("LABELS", ["0=y"]), ("ATTACKS", ["a:b", None, ""]), ("DISPLAYBPM", ["1:2", "*", None]), ("ARTIST", ["猫"]), ("EXTRA KEY", ["v", None]),
+                      ("SUBTITLE", [None, ""])):       # None: a key-only property (#ATTACKS;), which an SM file may hold for any key
         if rng.random() < 0.3:
             props.append([key, rng.choice(vals)])
     # keys the blank SSC template also has (so that template and source compete), with blank, whitespace-only and ordinary values
@@ -55,14 +56,15 @@ def rand_templates(rng):
     r = rng.random()
     ts = tc = None
     if r < 0.35:
-        ts = {"props": "blank", "extra": [["CREDIT", "tmpl"], ["X", "y"], ["TITLE", "from template"]][: rng.randrange(0, 4)],
+        ts = {"props": "blank", "extra": rng.choice([[["CREDIT", "tmpl"], ["X", "y"], ["TITLE", "from template"]], [["ATTACKS", None], ["GENRE", None], ["X", "y"]]])[: rng.randrange(0, 4)],
               "charts": rng.choice([0, 0, 1, 2])}
     elif r < 0.42:
         ts = {"props": "empty", "extra": [], "charts": rng.choice([0, 1])}
     elif r < 0.52:
         ts = {"props": "partial", "extra": [["CREDIT", "tmpl"], ["X", "y"]][: rng.randrange(0, 3)], "charts": rng.choice([0, 0, 1])}
     if rng.random() < 0.3:
-        pool = [["CHARTNAME", "t"], ["CREDIT", "c"], ["DISPLAYBPM", "90.000:180.000"], ["ATTACKS", "TIME=1.5:LEN=2:MODS=drunk"], ["DISPLAYBPM", "*"]]
+        pool = [["CHARTNAME", "t"], ["CREDIT", "c"], ["DISPLAYBPM", "90.000:180.000"], ["ATTACKS", "TIME=1.5:LEN=2:MODS=drunk"], ["DISPLAYBPM", "*"], ["ATTACKS", None],
+                ["CHARTSTYLE", None]]
         tc = {"extra": rng.sample(pool, rng.randrange(0, 4)), "empty": rng.random() < 0.2, "notes2": rng.random() < 0.4, "partial": rng.random() < 0.25}
     return ts, tc
 
